@@ -77,8 +77,9 @@ class Scheduler:
 
     def __init__(self, chooser, watched_files=(), watched_mods=(),
                  observe=None, line_points=False, use_cache=True,
-                 only_funcs=None) -> None:
+                 only_funcs=None, every_switch_costs=False) -> None:
         self.chooser = chooser
+        self.every_switch_costs = every_switch_costs
         self.only_funcs = only_funcs
         self.watched_files = set(watched_files)
         self.watched_mods = set(watched_mods)
@@ -200,7 +201,7 @@ class Scheduler:
                 raise Abort()
             return
         n = len(enabled)
-        preempt = 1 if enabled[0] is me else 0
+        preempt = 1 if (enabled[0] is me or self.every_switch_costs) else 0
         try:
             key = None
             if self.use_cache and self.chooser.beyond_prefix():
